@@ -9,7 +9,7 @@ CFG = dict(
          "with keyword bodies, backtick identifiers, all 21 operators) rendered with random whitespace and case masks, one required separator dropped on purpose in ~10% — "
          "rsql.NewLexer token stream (type, value, position, recorded lexical errors) vs the Lean lexer model, byte-exact, plus the oracles "
          "LexSpec.isTokenization and LexSpec.expected; (statement) one statement of the reference grammar (harness/c11_stmt.go: select items with aliases, "
-         "FROM, WHERE, GROUP BY + five window kinds, HAVING, WITH options, ORDER BY, LIMIT, DISTINCT; literals containing LIMIT/ORDER BY/WHERE/FROM/quotes; "
+         "FROM [alias], stream-table JOINs, MATCH_RECOGNIZE (PARTITION BY / ORDER BY / MEASURES / ROWS PER MATCH / PATTERN with quantifiers and alternation / WITHIN / DEFINE), WHERE, GROUP BY + five window kinds, HAVING, WITH options, ORDER BY, LIMIT, DISTINCT; literals containing LIMIT/ORDER BY/WHERE/FROM/quotes; "
          "backtick identifiers) rendered in 5 layouts / keyword spellings, each parsed by rsql.NewParser(..).Parse() and rsql.Parse: clause lines vs the "
          "generator's expectation and complete canonical types.Config across layouts (oracle ParserTV.check); direct statements are also executed "
          "(EmitSync on fixed rows) per layout; (totality) rsql.Parse under recover + per-call timeout on byte soup, token soup, mutated valid statements, "
@@ -22,7 +22,7 @@ CFG = dict(
         "parser layout-insensitivity beyond the token stream: proved only up to the lexer (equal token streams); that rsql's parser is a function of the "
         "token stream is false in general (parseLimit, parseOrderBy, parseWith and an error path read the raw input) and is checked per generated statement "
         "across 5 layouts, not proved",
-        "JOIN and MATCH_RECOGNIZE clauses are not part of the reference grammar (covered only by the totality search)",
+        "not in the reference grammar (covered only by the totality search): analytic functions with OVER, SUBSET / AFTER MATCH SKIP / PERMUTE in MATCH_RECOGNIZE, array indexing, nested function calls in select items",
     ],
     assumptions=[
         "SEARCH, not proof: parser totality (op `total`) explores a finite sample of inputs per run; a pass means no panic/hang was found",
@@ -45,6 +45,7 @@ META = dict(
          "The parser proper (parser.go, ast.go) is NOT modelled: faithfulness to the written clauses and layout-insensitivity of the resulting configuration are "
          "checked translation-validation style on generated statements of a reference grammar in 5 layouts; parser totality is a search (fuzz + mutation under recover/timeout).",
     note="Claimed partial. Trusted: Lean kernel; hand-written lexer model (tied by correspondence, not verified); the Go reference grammar and canonicalisation in "
-         "harness/c11_stmt.go; harness/driver/runner. Not proved: anything about parser.go/ast.go (only sampled); JOIN and MATCH_RECOGNIZE are outside the reference grammar. "
-         "Found by the check and fixed in the repo: HAVING text swallowed a following ORDER BY clause (parseHaving).",
+         "harness/c11_stmt.go; harness/driver/runner. Not proved: anything about parser.go/ast.go (only sampled); OVER clauses and some MATCH_RECOGNIZE sub-clauses are outside the reference grammar. "
+         "Found by the check and fixed in the repo: HAVING text swallowed a following ORDER BY clause (parseHaving); ORDER BY inside MATCH_RECOGNIZE(...) was taken for the statement ORDER BY (parseOrderBy); "
+         "rsql.Parse panicked on nested aggregate calls at the end of HAVING (extractHavingAggregates).",
 )
